@@ -450,7 +450,8 @@ func (g *tg) structTD(depth int, addressable bool) *TD {
 			} else if g.n(4, "embedtag") == 0 {
 				// a json tag on an embedded struct: a name makes it an ordinary field, "-" omits it
 				f.HasTag = true
-				f.Tag = rapid.SampledFrom([]string{"in", "-", ",omitempty", "in,omitempty", "a'b"}).Draw(g.t, "embedtagval")
+				// (pn and pn+",omitempty": a tag that spells out the field's own Go name still makes it an ordinary field)
+				f.Tag = rapid.SampledFrom([]string{"in", "-", ",omitempty", "in,omitempty", "a'b", pn, pn + ",omitempty"}).Draw(g.t, "embedtagval")
 			}
 			td.Fields = append(td.Fields, f)
 			continue
@@ -472,6 +473,11 @@ func (g *tg) structTD(depth int, addressable bool) *TD {
 				switch g.n(4, "repeat-as") {
 				case 0:
 					f.T = base
+					if !addressable && mentionsPtrRecvMarshaler(base) {
+						// stripped out of its pointer in a non-addressable position (below a map value):
+						// outside the domain by value, so it stays behind a pointer
+						f.T = &TD{K: "ptr", Elem: base}
+					}
 				case 1:
 					f.T = &TD{K: "ptr", Elem: base}
 				case 2:
@@ -519,6 +525,40 @@ func mentionsPtrRecvMarshaler(td *TD) bool {
 		}
 	})
 	return found
+}
+
+// PtrRecvByValueNonAddressable reports whether td holds a type whose marshaler has a pointer
+// receiver (math/big.Rat, ...) by value in a position encoding/json cannot take the address of
+// (below a map value, not behind a pointer or slice): there encoding/json ignores the marshaler,
+// a well-known quirk that puts the type outside C04's domain.
+func PtrRecvByValueNonAddressable(td *TD) bool {
+	var walk func(x *TD, addr bool) bool
+	walk = func(x *TD, addr bool) bool {
+		if x == nil {
+			return false
+		}
+		switch x.K {
+		case "pool":
+			if p, ok := poolByName(x.Pool); ok && p.Class == "stdptrrecv" {
+				return !addr
+			}
+			return false
+		case "ptr", "slice":
+			return walk(x.Elem, true)
+		case "array":
+			return walk(x.Elem, addr)
+		case "map":
+			return walk(x.Elem, false)
+		case "struct":
+			for i := range x.Fields {
+				if walk(x.Fields[i].T, addr) {
+					return true
+				}
+			}
+		}
+		return false
+	}
+	return walk(td, true)
 }
 
 // validTagName mirrors encoding/json's isValidTag.
